@@ -71,12 +71,19 @@ func (h *timeoutHandler) ServeHTTP(w http.ResponseWriter, r *http.Request) {
 	panicChan := make(chan interface{}, 1)
 
 	go func() {
+		finished := false
 		defer func() {
-			if p := recover(); p != nil {
+			// panic(nil) 时 recover() 返回 nil，不能用它判断是否发生了 panic
+			if !finished {
+				p := recover()
+				if p == nil {
+					p = errors.New("panic(nil)")
+				}
 				panicChan <- p
 			}
 		}()
 		h.handler.ServeHTTP(tw, r)
+		finished = true
 		close(done)
 	}()
 
